@@ -315,3 +315,41 @@ Lemma depth3_rebound_ok :
   mem "i" (free_symbols (doit depth3_rebound)) = false /\
   mem "j" (free_symbols (doit depth3_rebound)) = false.
 Proof. repeat split; vm_compute; reflexivity. Qed.
+
+(* ------------------------------------------------------------------ *)
+(* the pools are LISTS: a repeated value is summed over twice           *)
+(* ------------------------------------------------------------------ *)
+Definition repeated_value : expr := PSum (Pow (Sym "x") (Sym "i")) [("i", [Num 1 1; Num 1 1])].
+
+Lemma repeated_value_ok :
+  wf repeated_value /\
+  evaluate repeated_value = Add [Pow (Sym "x") (Num 1 1); Pow (Sym "x") (Num 1 1)] /\
+  forall (A : alg) (r : string -> V A),
+    den r repeated_value =
+    vadd A (vpow A (r "x") (vnum A 1 1)) (vadd A (vpow A (r "x") (vnum A 1 1)) (vzero A)).
+Proof. repeat split; reflexivity. Qed.
+
+(* pool values that a substitution makes coincide still count separately *)
+Definition merged_values : expr := PSum (Pow (Sym "x") (Sym "i")) [("i", [Sym "a"; Sym "b"])].
+
+Lemma merged_values_ok :
+  wf merged_values /\
+  subs1 "a" (Sym "b") merged_values = PSum (Pow (Sym "x") (Sym "i")) [("i", [Sym "b"; Sym "b"])] /\
+  doit (subs1 "a" (Sym "b") merged_values) = Add [Pow (Sym "x") (Sym "b"); Pow (Sym "x") (Sym "b")].
+Proof. repeat split; reflexivity. Qed.
+
+(* cleanup looks at the ORIGINAL summand: x*i*j + y with i in (0,), j in (1,2,3) keeps the sum over j *)
+Definition cancel_case : expr :=
+  PSum (Add [Mul [Sym "x"; Sym "i"; Sym "j"]; Sym "y"])
+       [("i", [Num 0 1]); ("j", [Num 1 1; Num 2 1; Num 3 1])].
+
+Lemma cancel_case_ok :
+  wf cancel_case /\
+  cleanup cancel_case =
+    PSum (Add [Mul [Sym "x"; Num 0 1; Sym "j"]; Sym "y"]) [("j", [Num 1 1; Num 2 1; Num 3 1])] /\
+  forall (A : alg) (r : string -> V A), den r (cleanup cancel_case) = den r cancel_case.
+Proof.
+  split; [reflexivity|]. split; [reflexivity|]. intros A r.
+  apply cleanup_den; [reflexivity|].
+  intros p [<-|[<-|[]]]; left; cbn; tauto.
+Qed.
